@@ -417,6 +417,7 @@ class Stmts:
             if d_ann is not None:
                 nd = self.mk_dict(d_ann[0], d_ann[1], fr.module, hint, ())
                 cur.base_get = nd.base_get
+                cur.key_ann = nd.key_ann  # type: ignore
             else:
                 def get2(key: V) -> V:
                     raise Unsupported(f"read of havocked dict {name} without declared type")
@@ -801,7 +802,23 @@ class Stmts:
             d = it.inner  # type: ignore
             if d.base_get is None and not d.havocked:
                 return ("concrete", [VTuple([k, v]) for k, v in d.items])
-            raise Unsupported("iteration over items of symbolic dict")
+            key_ann = getattr(d, "key_ann", None)
+            if key_ann is None or d.items:
+                raise Unsupported("iteration over items of symbolic dict")
+            # the items of a symbolic dict: an unknown number of (key, value) pairs, keys arbitrary values of the
+            # declared key type that are present in the dict (nothing is assumed about their order or distinctness)
+            n_items = z3.Int(self.path.fresh_name("$dict.items.len"))
+            self.path.add_fact(n_items >= 0)
+            tag = self.path.fresh_name("$dict.key")
+
+            def get_item(idx: Any) -> V:
+                key = self.mk_sym(key_ann[0], key_ann[1], tag, (idx,))
+                val = d.base_get(key)
+                if isinstance(val, VOpt):
+                    self.path.add_fact(z3.Not(val.isnone))
+                    val = val.val
+                return VTuple([key, val])
+            return ("symbolic", n_items, get_item)
         if isinstance(it, VBuiltin) and it.name == "dict-values":
             d = it.inner  # type: ignore
             if d.base_get is None and not d.havocked:
